@@ -606,4 +606,37 @@ def stepsAtStrided (l : Layout) (bounds : List (List Nat)) (el elSize : Nat) (ms
       let dyn0 := if v = 0 then el else fb.getD p 0 * (v * el)
       .ok (regroup l.ts (stepsRevM el ((flat.zip fb).zip pre.flatten).reverse dyn0).reverse)
 
+/-! ## Small helpers of the classes (`TiledStride.is_dynamic / all_values / get_stride`, `equal_tile_bounds`,
+`Stride.__str__`) -/
+
+/-- `TiledStride.is_dynamic` -/
+def tstrideIsDynamic (t : TStride) : Bool := t.any Stride.isDynamic
+
+/-- `TiledStride.all_values`: the first failing stride decides the exception -/
+def tstrideAllValues (t : TStride) : Except Err (List (List Nat)) := t.mapM Stride.allValues
+
+/-- `TiledStride.get_stride(depth)` for `depth ≥ 0` (`IndexError` is turned into `None`) -/
+def tstrideGet (t : TStride) (depth : Nat) : Option Stride := t[depth]?
+
+/-- `equal_tile_bounds` -/
+def Layout.equalTileBounds (a b : Layout) : Bool := a.tileBounds == b.tileBounds
+
+/-- `Stride.__str__`: `bound -> step`, `?` only for `None` (a literal 0 is printed as 0 here) -/
+def printStride (s : Stride) : List Tok :=
+  [match s.bound with | some b => Tok.int b | none => Tok.question, .arrow,
+   match s.step with | some st => Tok.int st | none => Tok.question]
+
+/-! ## Vocabulary for the general statement about subview pointers -/
+
+/-- every offset rounded down to a multiple of the inner tile size of its dimension -/
+def floorTile : SLayout → List Nat → List Nat
+  | t :: ts, v :: vs => (v / prodB t.tail * prodB t.tail) :: floorTile ts vs
+  | _, _ => []
+
+/-- one offset per dimension, every dimension tiled at least once -/
+def Shaped : SLayout → List Nat → Prop
+  | t :: ts, _ :: vs => t ≠ [] ∧ Shaped ts vs
+  | [], [] => True
+  | _, _ => False
+
 end SnaxVerif.Tsl
